@@ -38,8 +38,8 @@ def mutate_value(v: Any, field: str, node: Any) -> Any:
     t = reflect.T()
     if field in ("tags", "non_equality_tags"):
         return frozenset(v) | {VTag(987654)}
-    if isinstance(v, bool):
-        return not v
+    if isinstance(v, (bool, np.bool_)):
+        return type(v)(not v)
     if isinstance(v, enum.Enum):
         members = list(type(v))
         return members[(members.index(v) + 1) % len(members)]
@@ -160,6 +160,9 @@ def expr_variants(expr: Any) -> list[tuple[str, Any]]:
             return super().map_type_cast(e, *a, **k)
 
         def map_constant(self, e: Any, *a: Any, **k: Any) -> Any:
+            if not self.done and self.what == "constant" and isinstance(e, (bool, np.bool_)):
+                self.done = True
+                return type(e)(not e)
             if not self.done and self.what == "constant" and not isinstance(e, bool) \
                     and isinstance(e, (int, float, complex, np.number)):
                 self.done = True
